@@ -201,6 +201,71 @@ def funnel(sx, kind):
                   sx.eq(d.get('faultstring'), 'Internal Error'), not _has_secret(sx, doc, secret))
 
 
+LAPPS = {}
+
+
+def _lapp(form):
+    if form not in LAPPS:
+        app = Application([FunnelService], 'tns', in_protocol=JsonDocument(),
+                          out_protocol=JsonDocument(complex_as={'list': list, 'tuple': tuple}[form]))
+        LAPPS[form] = (app, ServerBase(app))
+    return LAPPS[form]
+
+
+@harness('C09', params=[(form, kind) for form in ('list', 'tuple') for kind in ('fault', 'fault+detail', 'exception')],
+         label=lambda p: 'complex_as=%s %s' % p,
+         functions=['spyne.protocol.dictdoc.hier.HierDictDocument._fault_to_doc', 'spyne.model.fault.Fault.to_list',
+                    'spyne.protocol.dictdoc.hier.HierDictDocument.serialize'],
+         bounds={'fault': 'as funnel (symbolic code, message, detail leaf); output protocol in positional form '
+                          '(complex_as=list / tuple); native replay parses the real JSON body'})
+def funnel_positional(sx, p):
+    """positional (list / tuple) document form: the fault is sent as one document [code, message, actor, detail]
+    from which the client recovers exactly the raised code, message and detail"""
+    form, kind = p
+    app, server = _lapp(form)
+    BEHAVE.clear()
+    ctx = _ctx_for(server, b'{"work": {"a": 5}}')
+    if ctx.in_error is not None:
+        return False
+    secret = None
+    if kind.startswith('fault'):
+        code = sx.choose('first', ['Client', 'Server'])
+        if sx.choose('sub', [0, 1]):
+            code = code + '.' + sx.text('subcode', 3, alphabet='ABab.')
+        msg = sx.text('msg', 4)
+        detail = {'why': sx.text('detail', 2)} if kind == 'fault+detail' else None
+        BEHAVE.update(kind='fault', cls=Fault, args=(code, msg, '', detail))
+    else:
+        secret = sx.text('secret', 6, alphabet='sekrit0123')
+        BEHAVE.update(kind='exc', cls=sx.choose('exc_class', EXC_CLASSES), secret=secret)
+        code, msg, detail = 'Server', 'Internal Error', None
+    server.get_out_object(ctx)
+    if ctx.out_error is None:
+        return False
+    app.out_protocol.serialize(ctx, app.out_protocol.RESPONSE)
+    doc = ctx.out_document
+    if not sx.symbolic:
+        import json
+        app.out_protocol.create_out_string(ctx)
+        try:
+            doc = [json.loads(b''.join(ctx.out_string).decode('utf8'))]
+        except ValueError:
+            return False
+    if not isinstance(doc, (list, tuple)) or len(doc) != 1:
+        return False
+    f = doc[0]
+    if not isinstance(f, (list, tuple)) or len(f) != 4:
+        return False
+    ok = [sx.eq(f[0], code), sx.eq(f[1], msg)]
+    if detail is not None:
+        ok.append(isinstance(f[3], dict) and sx.eq(f[3].get('why'), detail['why']))
+    else:
+        ok.append(f[3] in ('', None))
+    if secret is not None:
+        ok.append(not _has_secret(sx, doc, secret))
+    return sx.And(*ok)
+
+
 # ---------------------------------------------------------------- soap 1.2 codes
 S12 = Soap12()
 
